@@ -21,7 +21,7 @@
      defect D2, repaired). *)
 From Coq Require Import Reals QArith List.
 From IT Require Import Common.ExpBounds Model.Reflect Model.Samplers
-  Proofs.SamplersProofs Proofs.MHProofs Proofs.MHRefuted Proofs.ExpBoundsProofs Proofs.DecisionProofs.
+  Proofs.SamplersProofs Proofs.MHProofs Proofs.MHRefuted Proofs.ExpBoundsProofs Proofs.DecisionProofs Proofs.FoldSymmetryProofs.
 From Coq Require Import Qreals.
 Import ListNotations.
 
@@ -103,6 +103,21 @@ Proof. exact mh_test_sound. Qed.
 Theorem C01_below_mh_prob : forall u d : R, (u < 1)%R -> ((u < exp d)%R <-> (u < mh_prob d)%R).
 Proof. exact below_mh_prob. Qed.
 
+(* folded 1-D proposals (reflecting boundaries, non-negativity) are reversible: every
+   increment t that takes x to y is matched by an increment of the same magnitude
+   that takes y back to x, so a symmetric increment law gives a symmetric proposal *)
+Theorem C01_reflect_proposal_reversible : forall lo w x t : Q, (0 < w -> lo <= x -> x <= lo + w ->
+  let y := reflect lo w (x + t) in
+  exists t', (t' == t \/ t' == - t) /\ reflect lo w (y + t') == x)%Q.
+Proof. exact reflect_proposal_reversible. Qed.
+
+Theorem C01_abs_proposal_reversible : forall x t : Q, (0 <= x ->
+  let y := abs_fold (x + t) in
+  exists t', (t' == t \/ t' == - t) /\ abs_fold (y + t') == x)%Q.
+Proof. exact abs_proposal_reversible. Qed.
+
+Print Assumptions C01_reflect_proposal_reversible.
+Print Assumptions C01_abs_proposal_reversible.
 Print Assumptions C01_decision_is_metropolis.
 Print Assumptions C01_below_mh_prob.
 Print Assumptions C01_mh_detailed_balance.
